@@ -32,6 +32,11 @@ LETTERS = ["f", "g", "h", "j"]
 # development aid (mutation trials on a loaded machine): same code path, smallest configuration and
 # samples; never used by the registered tiers and recorded in the evidence when set
 SMOKE = os.environ.get("VERIF_SMOKE") == "1"
+# VERIF_CAP=N: run the thorough path (compile everything in chunks, large CLI sample) on a seeded
+# sample of N structs taken from the quick configurations -- a way to exercise the thorough code
+# path on an overloaded machine; recorded in the evidence when set
+CAP = int(os.environ.get("VERIF_CAP", "0") or 0)
+TLC_WORKERS = int(os.environ.get("VERIF_TLC_WORKERS", "8") or 8)
 
 
 # ---------------------------------------------------------------------------------------------
@@ -214,6 +219,10 @@ def cli_features(c):
         "tail_byte": c["tail"],
         "nested": any(has_nested(f) for f in c["fields"]),
         "nested_not_first": any(has_nested(f) for f in c["fields"][1:]),
+        # the trailing field is a non-empty nested struct of size 0 and alignment > 1 that carries
+        # the outer struct's tail byte (see the known finding in the notes)
+        "trailing_zero_nested_aligned": bool(c["fields"]) and has_nested(c["fields"][-1]) and c["fsz"][-1] == 0
+                                        and c["fal"][-1] > 1 and c["altfsz"][-1] == 1,
     }
 
 
@@ -289,7 +298,7 @@ def judge_optimize(ctx, cases_by_idx, cli_results):
 # ---------------------------------------------------------------------------------------------
 
 def tlc_cases(ctx, cfg, offset, timeout):
-    r = vlib.run_tlc(ctx, "MCLayout", cfg, workers=min(vlib.NCPU, 8), timeout=timeout, coverage=False)
+    r = vlib.run_tlc(ctx, "MCLayout", cfg, workers=min(vlib.NCPU, TLC_WORKERS), timeout=timeout, coverage=False)
     vlib.tlc_require_ok(r, "Layout laws (%s)" % cfg)
     if len(r.cases) != r.distinct or not r.cases:
         raise Inconclusive("TLC emitted %d cases for %d states (%s)" % (len(r.cases), r.distinct, cfg))
@@ -337,7 +346,7 @@ def run(ctx):
     # 1. TLC: laws + emission
     if SMOKE:
         plan = [("MCLayout_small.cfg", 2400)]
-    elif ctx.quick:
+    elif ctx.quick or CAP:
         plan = [("MCLayout_small.cfg", 1200), ("MCLayout_core.cfg", 2400)]
     else:
         plan = [("MCLayout_mid.cfg", 7200), ("MCLayout_corebig.cfg", 14000)]
@@ -352,6 +361,10 @@ def run(ctx):
             seen.add(k)
             c["idx"] = len(cases)
             cases.append(c)
+    if CAP and not ctx.quick:
+        cases = stratified(ctx, cases, CAP)
+        for i, c in enumerate(cases):
+            c["idx"] = i
     by_idx = {c["idx"]: c for c in cases}
     n_tail = sum(1 for c in cases if c["tail"])
     n_zero = sum(1 for c in cases if c["size"] == 0 and c["fields"])
@@ -371,7 +384,8 @@ def run(ctx):
         chunks = [cc_cases]
     else:
         cc_cases = cases
-        chunks = [cases[i:i + 12000] for i in range(0, len(cases), 12000)]
+        step = 12000 if not CAP else max(1, CAP // 3)
+        chunks = [cases[i:i + step] for i in range(0, len(cases), step)]
     for n, ch in enumerate(chunks):
         validate_spec(ch, compile_and_measure(ctx, ch, str(n)), "the compiler (unsafe.Sizeof/Alignof/Offsetof)")
 
@@ -396,7 +410,7 @@ def run(ctx):
                        "expected": spec_nums(c), "observed": got, "count": len(lst)})
 
     # 5. real binaries on a sample
-    cli_cases = stratified(ctx, cases, 60 if SMOKE else 300 if ctx.quick else 5000)
+    cli_cases = stratified(ctx, cases, 60 if SMOKE else 300 if ctx.quick else 2000)
     cli = run_cli(ctx, bins, cli_cases, "main")
     verdicts, robs = judge_optimize(ctx, by_idx, cli)
     n_sl, n_opt = cli_verdicts(ctx, by_idx, cli, verdicts)
@@ -434,6 +448,7 @@ def run(ctx):
                                "OptimizeRNeverGrows", "OptimizeAltNeverGrows", "AppendStable(action)", "ASSUME Examples"]},
         "phase_wall_s": phases,
         "smoke_mode": SMOKE,
+        "cap": CAP,
         "structs_enumerated": len(cases),
         "structs_with_tail_byte": n_tail,
         "zero_size_structs": n_zero,
@@ -508,7 +523,9 @@ def cli_verdicts(ctx, by_idx, cli, verdicts):
             what = "structlayout-optimize%s output %s for %s: got %s%s; %d sampled structs of this shape" % (
                 flag, why, describe(c), brief(r[mode]["entries"]), (", a valid layout of that order is " + brief(v["expect"])) if v["expect"] else "", len(lst))
         ctx.violation(vlib.canon_key({"cli": "optimize" + flag, "kind": bad, "shape": json.loads(feat)}), what,
-                      {"kind": "optimize", "mode": mode, "how": bad, "shape": json.loads(feat), "fields": c["fields"], "go": describe(c),
+                      {"kind": "optimize", "mode": mode, "how": bad, "shape": json.loads(feat),
+                       "trailing_zero_nested_aligned": json.loads(feat)["trailing_zero_nested_aligned"],
+                       "fields": c["fields"], "go": describe(c),
                        "input": r["sl"], "observed": r[mode], "verdict": v, "origsize": c["size"], "count": len(lst)})
     return n_sl, n_opt
 
